@@ -1,10 +1,15 @@
-(* C17 — flat-integer interface of the model for the correspondence check.
-   input : [ns; nswin; ov; with_splice]
-   output: nwin :: enc(firstlast) ++ enc(firstlast_valid) ++ enc(tscale2) ++ enc(splicing)
-   (splicing only when with_splice = 1). *)
+(* C17 -- flat-integer interface of the model for the correspondence check.
+   mode 0/1  input : [ns; nswin; ov; with_splice]
+             output: nwin :: enc(firstlast) ++ enc(firstlast_valid) ++ enc(tscale2) ++ enc(splicing)
+             (splicing only when with_splice = 1).
+   mode 2    input : ns :: nswin :: ov :: 2 :: nk :: kinds(nk) ++ events
+                     kinds: 0 firstlast, 1 firstlast_valid, 2 firstlast_splicing, 3 slice, 4 slice_array
+                     events: i >= 0 = next() on view i, -1 = tscale()
+             output: per event  enc(out) ++ [iw or -1 for None; nalloc]   (Object.run_schedule)
+   mode 3    input : [ns; nswin; ov; 3; ubits]     output: [nwin_raw ubits ns nswin ov]  *)
 From Coq Require Import ZArith List Bool.
 From IBL.lib Require Import PyInt RunLib.
-From IBL.C17 Require Import Model.
+From IBL.C17 Require Import Model Object.
 Import ListNotations.
 Open Scope Z_scope.
 
@@ -14,6 +19,27 @@ Definition enc_quad (q : Z * Z * Z * Z) : list Z :=
 Definition enc_amp (a : Z * Z * list Z) : list Z :=
   let '(f, l, codes) := a in f :: l :: enc_zlist codes.
 
+Definition dec_kind (z : Z) : vkind :=
+  if z =? 0 then KFirstlast else if z =? 1 then KValid else if z =? 2 then KSplicing
+  else if z =? 3 then KSlice else KSliceArray.
+Definition dec_event (z : Z) : event := if z <? 0 then ETscale else ENext (Z.to_nat z).
+
+Definition enc_out (x : out) : list Z :=
+  match x with
+  | OStop => [0]
+  | OAssert => [1]
+  | OFirstlast f l => [2; f; l]
+  | OValid f l fv lv => [3; f; l; fv; lv]
+  | OSplice f l codes => 4 :: f :: l :: enc_zlist codes
+  | OSlice f l => [5; f; l]
+  | OSliceArray f l => [6; f; l]
+  | OTscale ts => 7 :: enc_zlist ts
+  | ODiverge => [8]
+  | OBad => [9]
+  end.
+Definition enc_obj (o : obj) : list Z :=
+  [match o_iw o with Some z => z | None => -1 end; o_nalloc o].
+
 Definition run (inp : list Z) : list Z :=
   match inp with
   | [ns; nswin; ov; sp] =>
@@ -22,6 +48,21 @@ Definition run (inp : list Z) : list Z :=
       ++ enc_option (enc_list enc_quad) (firstlast_valid ns nswin ov)
       ++ enc_option enc_zlist (tscale2 ns nswin ov)
       ++ (if sp =? 1 then enc_option (enc_list enc_amp) (splicing ns nswin ov) else [])
+  | ns :: nswin :: ov :: mode :: rest =>
+      if mode =? 2 then
+        match rest with
+        | nk :: r =>
+            let '(ks, es) := take_z nk r in
+            flat_map (fun p => enc_out (fst p) ++ enc_obj (snd p))
+                     (snd (run_schedule ns nswin ov (map dec_kind ks) (map dec_event es)))
+        | [] => [-999]
+        end
+      else if mode =? 3 then
+        match rest with
+        | [ubits] => [nwin_raw ubits ns nswin ov]
+        | _ => [-999]
+        end
+      else [-999]
   | _ => [-999]
   end.
 
